@@ -291,6 +291,34 @@ class ExprGen:
         return ("bin", o, a, b)
 
 
+def _has_node(ast, kinds):
+    if not isinstance(ast, tuple) or not ast:
+        return False
+    if ast[0] in kinds and ast[0] in ("lit", "nplit") and isinstance(ast[1], float):
+        return True
+    return any(_has_node(x, kinds) for x in ast[1:] if isinstance(x, tuple)) or \
+        any(_has_node(y, kinds) for x in ast[1:] if isinstance(x, tuple) for y in x if isinstance(y, tuple) and y and isinstance(y[0], tuple))
+
+
+def _swap_one_literal(ast, rng, done=None):
+    """copy of the AST in which the first float literal met (in a seeded walk) changes between ("lit", v) and ("nplit", v);
+    only right-hand operands of binary operators are touched (a numpy scalar left of a reference owns the operator)"""
+    done = done if done is not None else [False]
+    if not isinstance(ast, tuple) or not ast:
+        return ast
+    if ast[0] == "bin" and not done[0]:
+        a, b = ast[2], ast[3]
+        if b[0] in ("lit", "nplit") and isinstance(b[1], float) and b[1] == b[1] and ast[1] in ("+", "-", "*"):
+            done[0] = True
+            return ("bin", ast[1], a, ("nplit" if b[0] == "lit" else "lit", b[1]))
+        na = _swap_one_literal(a, rng, done)
+        nb = b if done[0] else _swap_one_literal(b, rng, done)
+        return ("bin", ast[1], na, nb)
+    if ast[0] in ("un", "bi") and not done[0]:
+        return (ast[0], ast[1], _swap_one_literal(ast[2], rng, done)) + tuple(ast[3:])
+    return ast
+
+
 STYLES = ["item", "item", "attr", "mgr"]
 
 DEFAULT_WEIGHTS = {"setv": 30, "sete": 30, "inpl": 12, "unreg": 6, "setc": 5,
@@ -363,6 +391,12 @@ class HistoryGen:
             return ("setv", p, gen_value(rng, spec.leaf_type[p]), rng.choice(STYLES))
         if kind == "sete":
             p = rng.choice(free)
+            redef = [l for l in free if l in m.defs and _has_node(m.defs[l], ("lit", "nplit"))]
+            if self.cfg.get("nplit") and redef and rng.random() < 0.12:
+                # the same definition once more, one literal now of the other type (numpy scalar <-> python number): the
+                # printed text is identical, the expression is not
+                p = rng.choice(redef)
+                return ("sete", p, _swap_one_literal(m.defs[p], rng), rng.choice(STYLES))
             ast = self.eg.gen(spec.leaf_type[p], self.cfg["expr_depth"], True)
             if rng.random() < 0.03 and spec.leaf_type[p] == "f" and "div" not in self.eg.ops_off:
                 ast = ("bi", "divmod", ast, (rng.choice([2, 3, 0.5]),))
